@@ -3,7 +3,8 @@
 Spec: spec/SessionOps.tla (values, module files, what a require form denotes),
 spec/Session.tla (interpreters, module loader as a sub-step machine, command
 alphabet), cfgs Session_one / Session_two / Session_wide / Session_pinned,
-Session_env1 / Session_env2 / Session_pinnedenv.
+Session_env1 / Session_env2 / Session_pinnedenv, Session_dirs / Session_nest /
+Session_fails / Session_pinnedhost (round 3).
 
 Binding A (replay along the state graph): TLC explores Session.tla and prints
 every command-level transition (EDGE: idle state, command, predicted outcome,
@@ -1361,7 +1362,10 @@ def run_checks(run, quick, rng, info, ahead):
     run.cov["rule"] = ("one case per executed command-level transition of the Session state graph "
                        "(each compared on outcome and on the full predicted scope of every interpreter); "
                        "quick: every edge of the graph along a spanning tree, state-preserving commands "
-                       "chained twice round in their state, each failing one repeated at once; thorough "
+                       "chained twice round in their state, each failing one repeated at once (the three small "
+                       "graphs of round 3 - different module directories + an interpreter constructed during the "
+                       "history, caller environments with a parent, failing definers / loads failing in the host - "
+                       "also along every history up to length 4 / 2 / 2); thorough "
                        "adds every history up to the stated length and random walks; evaluations counts "
                        "interpret calls and scope look-ups")
     run.cov["exhaustive"] = True
